@@ -195,9 +195,8 @@ def gen_deep(rng, depth):
 
 
 def avoid_open_signatures(text):
-    """bulk streams stay away from the open finding's signature (a dedicated probe covers it)"""
-    while EMPTY_DOC in text:
-        text = text.replace(EMPTY_DOC, "/** */")
+    """bulk streams stay away from open findings' signatures. C05-F1 (`/**/`) is fixed, so nothing
+    is filtered any more; C05-F2 needs a well-typed program and is matched by its signature."""
     return text
 
 
@@ -393,13 +392,8 @@ def full_signature(ctx, mods, ans):
     text = "\n".join(t for _, t in mods)
     d = describe_full(ans)
     for f in ctx.open_findings:
-        if f["id"] == "C05-F1" and is_f1(text) and "slice index starts at 3 but ends at 2" in d:
-            return f
         if f["id"] == "C05-F2" and ans.startswith("panic@compile") and re.search(r"[0-9]", text) \
                 and re.search(r"attempt to (add|subtract|multiply|divide|negate|calculate the remainder) with overflow", d):
-            return f
-        if f["id"] == "C05-F3" and ans.startswith("panic@check") and "samlang-checker/src/typing_context.rs" in d \
-                and "called `Option::unwrap()` on a `None` value" in d:
             return f
     return None
 
